@@ -1,12 +1,16 @@
 (** C17 -- text fields are preserved exactly or cut on a character boundary.
     Statements only; proofs are in Proofs/TextProofs.v.  A Rust &str is a list of Unicode scalar values;
     core::str::from_utf8 / char::encode_utf8 are specified by RFC 3629 (Model/Text.v).
-    PARTIAL: the conversions, the UTF-8 validity and the decoder's rejection of invalid UTF-8 are proved;
-    the round trip of these fields through a whole message rests on the bit-packing round trip (C07) and
-    is covered by the correspondence only. *)
+    The conversions, the UTF-8 validity, the refusal of long text and the decoder's rejection of invalid UTF-8
+    are proved; through a message body these fields come back unchanged: descriptor strings in every layout
+    that has them ([C17_descriptor_roundtrip], from C01's induction, Proofs/RoundTrip.v) and the text of
+    message 1029 ([C17_text_roundtrip_1029], Proofs/TextRoundTrip.v).
+    PARTIAL only in that the frame wrapper around the 1029 body (number, length, CRC) is covered by the
+    correspondence; for the descriptor layouts it is C01_build_decodes. *)
 From Coq Require Import ZArith List Lia Bool.
-From RtcmModel Require Import Types BitIO Field Text.
-From RtcmProofs Require Import ListZ TextProofs.
+From RtcmModel Require Import Types BitIO Field Text Layout Message Top.
+From RtcmGen Require Import GenFields GenSignals GenLayouts GenMessages.
+From RtcmProofs Require Import ListZ TextProofs SizeProofs DecodeTotal FieldProofs RoundTrip TextRoundTrip.
 Import ListNotations.
 Open Scope Z_scope.
 
@@ -65,7 +69,50 @@ Proof. split; reflexivity. Qed.
 Example C17_example_invalid : from_utf8 [237; 160; 128] = None /\ from_utf8 [192; 175] = None.
 Proof. split; reflexivity. Qed.
 
+(** through a message body: a descriptor string (any layout position, any buffer) that the encoder wrote is
+    read back as what the conversion kept -- the fixed-point theorem of C01 specialised to the string fragment *)
+Theorem C17_descriptor_roundtrip : forall cap lb data off v off', 1 <= lb <= 8 -> 0 <= cap ->
+  bytes_ok data = true -> 0 <= off -> t_decode_frag (FStr cap lb) data off = Ok (v, off') ->
+  forall d o, bytes_ok d = true -> 0 <= o -> o + (off' - off) <= 8 * zlen d ->
+  exists d', t_encode_frag (FStr cap lb) (d, o) v = Ok (d', o + (off' - off)) /\ t_decode_frag (FStr cap lb) d' o = Ok (v, o + (off' - off)).
+Proof.
+  intros cap lb data off v off' Hl Hc Hb Ho H d o Hbd Hoo Hfit. cbn [t_decode_frag t_encode_frag decode_frag encode_frag] in *.
+  destruct (decode_str_fix cap lb data off v off' Hl Hc Hb Ho H d o Hbd Hoo Hfit) as [d' [E [_ [_ [_ D]]]]]. exists d'. split; assumption.
+Qed.
+
+(** message 1029: whatever body the encoder accepts (the text being a Rust str: Unicode scalar values), the
+    decoder returns, with the text equal to the longest prefix of whole characters that fits 255 bytes --
+    i.e. unchanged whenever it fits *)
+Theorem C17_text_roundtrip_1029 : forall d v1 v2 v3 cs d' o', bytes_ok d = true -> forallb scalar_ok cs = true ->
+  t_encode_frag layout_1029 (d, 12) (VStruct [v1; v2; v3; VStr cs]) = Ok (d', o') ->
+  exists v1' v2' v3', t_decode_frag layout_1029 d' 12 = Ok (VStruct [v1'; v2'; v3'; VStr (firstn (fit_count 255 0 cs) cs)], o').
+Proof.
+  intros d v1 v2 v3 cs d' o' Hb Hs H.
+  destruct (text_message_decodes sig_table ssr_table_1059 ssr_table_1065 SAT_CAP_1059 SAT_CAP_1065
+              [FField df003; FField df051; FField df052] [v1; v2; v3] cs d 12 d' o'
+              ltac:(vm_compute; reflexivity) ltac:(vm_compute; reflexivity) eq_refl Hb ltac:(lia) Hs) as [vs' [D S]].
+  - intros d1 o1 E. cbn [bind] in E.
+    destruct (t_encode_frag (FField df003) (d, 12) v1) as [st1|e|] eqn:E1; unfold t_encode_frag in E1; rewrite E1 in E; cbn [bind] in E; try discriminate.
+    destruct (encode_frag sig_table ssr_table_1059 ssr_table_1065 SAT_CAP_1059 SAT_CAP_1065 (FField df051) st1 v2) as [st2|e|] eqn:E2; cbn [bind] in E; try discriminate.
+    destruct (encode_frag sig_table ssr_table_1059 ssr_table_1065 SAT_CAP_1059 SAT_CAP_1065 (FField df052) st2 v3) as [st3|e|] eqn:E3; cbn [bind] in E; try discriminate.
+    cbn [encode_frag] in E1, E2, E3. apply encode_field_off in E1, E2, E3. cbn [snd] in E1. inversion E; subst st3. cbn [snd] in E3.
+    rewrite E3, E2, E1. reflexivity.
+  - exact H.
+  - inversion S as [|? x1 ? r1 _ S1]; subst. inversion S1 as [|? x2 ? r2 _ S2]; subst. inversion S2 as [|? x3 ? r3 _ S3]; subst. inversion S3; subst.
+    exists x1, x2, x3. exact D.
+Qed.
+
+(** non-vacuity: "Grüße" (two 2-byte characters) in a 1029 body *)
+Example C17_example_1029 :
+  match t_encode_frag layout_1029 (repeat 0 30, 12) (VStruct [VInt 7; VInt 100; VInt 5; VStr [71; 114; 252; 223; 101]]) with
+  | Ok (d', o') => t_decode_frag layout_1029 d' 12 = Ok (VStruct [VInt 7; VInt 100; VInt 5; VStr [71; 114; 252; 223; 101]], o') /\ o' = 72 + 8 * 7
+  | _ => False
+  end.
+Proof. vm_compute. split; reflexivity. Qed.
+
 Print Assumptions C17_df88591_from_str.
 Print Assumptions C17_array_string_prefix.
 Print Assumptions C17_utf8_valid.
 Print Assumptions C17_invalid_utf8_rejected.
+Print Assumptions C17_descriptor_roundtrip.
+Print Assumptions C17_text_roundtrip_1029.
